@@ -234,13 +234,18 @@ def combiner(draw):
     fns = [draw(st.sampled_from(M.BBOB_FUNCS)) for _ in range(k)]
     if any(f in DIM2_ONLY for f in fns):
       dim = max(dim, 2)
-    for fn in fns:
+    for ci, fn in enumerate(fns):
       node = {'t': 'bbob', 'fn': fn,
               'dim': dim, 'seed': draw(st.integers(0, 3)),
               'via': draw(st.sampled_from(['factory', 'direct'])),
               'space': 'default'}
       sig = {'kinds': ['D'] * dim, 'flat': True, 'nobj': 1, 'total': True}
-      if draw(st.sampled_from([True, False, False])):
+      if k >= 2 and ci < k - 1 and draw(st.booleans()):
+        # infeasibility that originates in a NON-LAST objective must survive
+        node, sig, _ = draw(wrap(node, sig, [], only=[
+            'infeasible_hash', 'infeasible_region'],
+                                 force=None))
+      elif draw(st.sampled_from([True, False, False])):
         node, sig, _ = draw(wrap(node, sig, [], only=[
             'signflip', 'noisy', 'normalize', 'infeasible_hash', 'permute']))
       kids.append(node)
